@@ -89,7 +89,7 @@ func ruleTableMutex(p *Program, r *Result) {
 		}
 	}
 	n := 0
-	for _, fn := range p.FuncsIn(func(path string) bool { return path == modPath }) {
+	for _, fn := range p.UnitsIn(func(path string) bool { return path == modPath }) {
 		for _, b := range fn.Blocks {
 			for _, in := range b.Instrs {
 				var m ssa.Value
@@ -123,7 +123,7 @@ func ruleTableMutex(p *Program, r *Result) {
 					r.ok("R-MUTEX", key, p.Pos(in.Pos()), true, "session table access in a helper whose every caller holds the table's exclusive lock at the call")
 				} else if ex {
 					r.ok("R-MUTEX", key, p.Pos(in.Pos()), true, "session table access under the table's exclusive lock")
-				} else if drains[fn] {
+				} else if drains[fn] || drains[p.orig(fn)] {
 					r.ok("R-MUTEX", key, p.Pos(in.Pos()), true, "session table access in the drain deferred by the connection loop: runs after the loop has stopped using the table")
 				} else {
 					r.bad("R-MUTEX", key, p.Pos(in.Pos()), "the session table's map is accessed without the table's lock")
